@@ -48,6 +48,39 @@ theorem prefetch_partitions (im : Inc) (n : Nat)
   exact ⟨hs.rows_perm, hs.cols_perm, hs.hasPM hpm,
     fun P hP q hq => ⟨hs.sub_pm P hP q hq, hP.2.2 q (hs.sub_pm P hP q hq)⟩⟩
 
+/-- **Merge order across recursion rounds.** When a round (`step1`: rows with one incidence first, then
+columns with one incidence last) shrinks the matrix, the result is: this round's first pairs *followed by*
+the recursive call's first pairs, and the recursive call's last pairs *followed by* this round's last pairs
+(`eids_last = eids_last_next + eids_last`); otherwise it is this round alone.  The pairs put last by an
+outer round therefore come after all pairs put last by inner rounds -- the order on which
+`blaze_blocks_lower_triangular` rests: an outer-round row may well involve an inner-round "last" column
+(example below), never the other way round. -/
+theorem prefetch_merge_order (im : Inc) (ri ci : List Nat) :
+    let s := step1 im ri ci
+    (s.ri.length * s.ci.length < ri.length * ci.length →
+      (prefetch im ri ci).first = s.first ++ (prefetch im s.ri s.ci).first ∧
+      (prefetch im ri ci).last = (prefetch im s.ri s.ci).last ++ s.last ∧
+      (prefetch im ri ci).ri = (prefetch im s.ri s.ci).ri ∧
+      (prefetch im ri ci).ci = (prefetch im s.ri s.ci).ci) ∧
+    (¬ s.ri.length * s.ci.length < ri.length * ci.length → prefetch im ri ci = s) := by
+  intro s
+  constructor
+  · intro h
+    rw [prefetch_eq, if_pos h]
+    exact ⟨rfl, rfl, rfl, rfl⟩
+  · intro h
+    rw [prefetch_eq, if_neg h]
+
+/-- the order matters from n = 4 on: here round one puts `(3,0)` first and `(0,3)` last, round two puts
+`(2,1)` first and `(1,2)` last; the trailing blocks `(1,2), (0,3)` are lower block-triangular, the other
+order is not (row 0 involves column 2) -/
+example : HasPerfectMatching (incOf orderMatrix) (List.range 4) (List.range 4) ∧
+    prefetch (incOf orderMatrix) (List.range 4) (List.range 4) =
+      { first := [(3, 0), (2, 1)], last := [(1, 2), (0, 3)], ri := [], ci := [] } ∧
+    (singles [(3, 0), (2, 1), (1, 2), (0, 3)]).Pairwise (NoInc (incOf orderMatrix)) ∧
+    ¬ (singles [(3, 0), (2, 1), (0, 3), (1, 2)]).Pairwise (NoInc (incOf orderMatrix)) := by
+  decide +kernel
+
 /-! ### blaze -/
 
 /-- `blaze` does not raise on a square matrix with a perfect matching (the generator's `next(...)`
@@ -176,6 +209,14 @@ theorem sequentialize_error_state_unchanged (m : SModel) (e : Err)
       simp only [h1, h2]
       simp at h
       exact ⟨by simp, h.symm⟩
+
+/-- the hypothesis is met both by a model with distinct LHS names (a two-equation loop) and by one with
+repeated LHS names (`v0 = v1 + 1; v0 = 2; v1 = 3`): both raise, both are left exactly as they were -/
+example : (sequentialize [⟨0, [1]⟩, ⟨1, [0]⟩, ⟨2, []⟩]).1 = .error .notPermutation ∧
+    (sequentialize [⟨0, [1]⟩, ⟨1, [0]⟩, ⟨2, []⟩]).2 = [⟨0, [1]⟩, ⟨1, [0]⟩, ⟨2, []⟩] ∧
+    (sequentialize [⟨0, [1]⟩, ⟨0, []⟩, ⟨1, []⟩]).1 = .error .notPermutation ∧
+    (sequentialize [⟨0, [1]⟩, ⟨0, []⟩, ⟨1, []⟩]).2 = [⟨0, [1]⟩, ⟨0, []⟩, ⟨1, []⟩] := by
+  decide +kernel
 
 /-- Soundness, for models whose LHS names are unique (then `Sequential.incidence_matrix` is square with
 the equations' own LHS on the diagonal): if `sequentialize` returns an order `π`, then `π` is a
@@ -346,6 +387,31 @@ theorem split_into_blocks_valid (tokens : List (List Int)) (eids canExo exo endo
   intro q
   rw [hs.qids_perm.mem_iff, mem_wrtQids]
 
+/-- **No claim outside the square case.**  `wrtQids` does not look at what a plan *fixes* (neither does
+`_resolve_steady_wrt`: a quantity whose level and change are both fixed stays an unknown column), so a plan
+that endogenizes a parameter without exogenizing a variable yields more unknowns than equations.  Then
+hypothesis `hw` of `split_into_blocks_valid` fails, and nothing can be valid: whatever list of blocks is
+returned, it cannot consist of square blocks that partition both the equations and the unknowns.
+(Recorded as finding `split-blocks-fully-fixed-quantity` under C05; for C16 it is outside the statement,
+which speaks of square matrices with a perfect matching.) -/
+theorem split_into_blocks_not_square_not_valid (eids canExo exo endo : List Int)
+    (bs : List (List Int × List Int)) (hne : eids.length ≠ (wrtQids canExo exo endo).length) :
+    ¬ ((bs.flatMap (·.1)).Perm eids ∧ (bs.flatMap (·.2)).Perm (wrtQids canExo exo endo) ∧
+        ∀ b ∈ bs, b.1.length = b.2.length) := by
+  rintro ⟨h1, h2, h3⟩
+  have := flatMap_length_of_square h3
+  rw [h1.length_eq, h2.length_eq] at this
+  exact hne this
+
+/-- what the model (as the code) does there: three equations, unknowns `0 1 2` plus the endogenized
+parameter `11` -- equation `102` ends up in two blocks; with another pattern unknown `1` is in no block -/
+example : wrtQids [0, 1, 2] [] [11] = [0, 1, 2, 11] ∧
+    splitIntoBlocks [[0, 10], [0, 1, 2, 11], [2, 11, 12]] [100, 101, 102] [0, 1, 2] [] [11] [0, 1] [0, 1, 2] =
+      .ok [([100], [0]), ([102], [2]), ([102], [11]), ([101], [1])] ∧
+    splitIntoBlocks [[0], [0, 1, 11], [1, 2]] [100, 101, 102] [0, 1, 2] [] [11] [] [] =
+      .ok [([100], [0]), ([102], [2]), ([101], [11])] := by
+  decide +kernel
+
 /-! ### Sequential: the permutation check, the rectangular incidence matrix (round 4) -/
 
 /-- For **every** model (repeated LHS names included): `sequentialize` never returns anything but a
@@ -512,5 +578,26 @@ equations `0: {0, 10}`, `1: {0, 1, 2, 11}`, `2: {2, 11, 12}` over variables `0 1
 example : wrtQids [0, 1, 2] [1] [11] = [0, 2, 11] ∧
     splitIntoBlocks [[0, 10], [0, 1, 2, 11], [2, 11, 12]] [100, 101, 102] [0, 1, 2] [1] [11] [0, 1] [0, 1] =
       .ok [([100], [0]), ([101, 102], [2, 11])] := by decide +kernel
+
+/-- hypotheses of `blaze_ids_valid` / `split_into_blocks_valid` met by the two examples above -/
+example : exampleMatrix.length = 5 ∧ (∀ row ∈ exampleMatrix, row.length = 5) ∧
+    (wrtQids [0, 1, 2] [1] [11]).length = 3 ∧
+    HasPerfectMatching (incOf (steadyInc [[0, 10], [0, 1, 2, 11], [2, 11, 12]] (wrtQids [0, 1, 2] [1] [11])))
+      (List.range 3) (List.range 3) := by
+  decide +kernel
+
+/-- hypothesis of `sequentialize_complete` met: `v0 = v1; v1 = v2; v2 = 1` has the valid order (2, 1, 0),
+and `sequentialize` finds it -/
+example : (∃ σ : List Nat, σ.Perm (List.range 3) ∧
+      SeqValid (σ.filterMap fun i => ([⟨0, [1]⟩, ⟨1, [2]⟩, ⟨2, []⟩] : SModel)[i]?)) ∧
+    (sequentialize [⟨0, [1]⟩, ⟨1, [2]⟩, ⟨2, []⟩]).1 = .ok [2, 1, 0] :=
+  ⟨⟨[2, 1, 0], by decide, by decide +kernel⟩, by decide +kernel⟩
+
+/-- a history (`reorder_equations([1, 0, 2])`, `sequentialize()`, `copy()`, a rejected
+`reorder_equations([0, 0, 1])`) after which `sequentialize()` still returns, with the state in valid order -/
+example :
+    let m := runOps [⟨0, [1]⟩, ⟨1, [2]⟩, ⟨2, []⟩] [.reorder [1, 0, 2], .sequentialize, .copy, .reorder [0, 0, 1]]
+    m = [⟨2, []⟩, ⟨1, [2]⟩, ⟨0, [1]⟩] ∧ (sequentialize m).1 = .ok [0, 1, 2] ∧ SeqValid (sequentialize m).2 := by
+  decide +kernel
 
 end IrisVerif.C16
